@@ -116,11 +116,23 @@ func (ex *Exec) encodeInto(arr, base string, t types.Type, v Val) {
 			ex.sc.assert(mkEq(composeLE(arr, mkAdd(base, num(s.off)), s.width), u))
 			continue
 		}
-		for j := int64(0); j < s.width; j++ {
-			el := ex.unsignedOfWidth(mkSelect(v.L[s.leaf], "i"), s.width, s.signed)
-			idx := mkAdd(base, mkAdd(num(s.off+j), mkMul(num(s.stride), "i")))
-			ex.sc.assert(fmt.Sprintf("(forall ((i Int)) (=> (and (<= 0 i) (< i %d)) (= (select %s %s) %s)))", s.count, arr, idx, byteOf(el, j)))
+		// array slot: element i occupies bytes off+stride*i .. +width. One fact per
+		// element, triggered by the element itself and by its first byte: the bytes
+		// are the little-endian digits of the (range-respecting) element, and put
+		// together again they give the element (lemma le_recompose_<w>).
+		src := ex.sc.define("viewsrc", sArr(sInt, sInt), v.L[s.leaf])
+		el := ex.unsignedOfWidth(mkSelect(src, "i"), s.width, s.signed)
+		first := mkAdd(base, mkAdd(num(s.off), mkMul(num(s.stride), "i")))
+		var cs []string
+		if !s.signed {
+			cs = append(cs, mkCmp("<=", "0", mkSelect(src, "i")), mkCmp("<", mkSelect(src, "i"), numBig(pow2(uint(8*s.width)))))
 		}
+		for j := int64(0); j < s.width; j++ {
+			idx := mkAdd(base, mkAdd(num(s.off+j), mkMul(num(s.stride), "i")))
+			cs = append(cs, mkEq(mkSelect(arr, idx), byteOf(el, j)))
+		}
+		cs = append(cs, mkEq(composeLE(arr, first, s.width), el))
+		ex.sc.assert(fmt.Sprintf("(forall ((i Int)) (! (=> (and (<= 0 i) (< i %d)) %s) :pattern ((select %s i)) :pattern ((select %s %s))))", s.count, mkAnd(cs...), src, arr, first))
 	}
 }
 
